@@ -475,11 +475,14 @@ Arguments ro_pre {U}. Arguments ro_recs {U}. Arguments ro_out {U}.
 (* Plan predicates: the hypotheses of the theorems; the harness evaluates them on every real plan
    (the validator of C02/C04 implies them) *)
 
+(* Items[0] (Run panics when there is none; the plans considered always have one) *)
+Definition first_item (items : list N) : N := match items with b :: _ => b | [] => 0%N end.
+
 (* the commit actions of a plan: (hash, branch) *)
 Fixpoint replays (plan : list action) : list (N * N) :=
   match plan with
   | [] => []
-  | ACommit c (b :: _) :: r => (c_id c, b) :: replays r
+  | ACommit c its :: r => (c_id c, first_item its) :: replays r
   | _ :: r => replays r
   end.
 
